@@ -60,7 +60,7 @@ CHECKS.update({
 CHECKS.update({
  "C04": dict(engine="S + X", technique="fault enumeration crossed with stateless model checking: every (fault kind, position, mode, input selection) explored under ALL task completion orders of the real coordinator; write limits enumerated at every byte count on the production binary",
    ref="4.5, 5/C04", note=S_NOTE + " Faults are real OS-level faults (directory in the way, /dev/full, RLIMIT_FSIZE, missing directories, invalid UTF-8); permission faults cannot be produced as root.",
-   text="Project a->b->c plus unrelated d: 15 fault kinds (directive errors, non-zero exit and death by signal of a command, unreadable/invalid includes and sources, occupied or unwritable output and temp paths, in-process write limits, verify mismatches) x 5 positions of the faulty file (root, middle, leaf, sibling, sibling with an empty output) x {build, needed, verify, clean where it applies} x pool sizes (unsaturated, 1, 2) x input selections, each explored under all completion orders: the run must return Err in every schedule (never Ok, hang or panic); the fault-free baseline must return Ok with correct outputs in every schedule. Fault sequences: a fault in a->b plus a directory that vanishes while it waits to be scanned (-r), all completion orders. RLIMIT_FSIZE = n for every n from 0 to the largest generated file + 1 on the production binary: exit 0 iff nothing hit the limit, and then all outputs are complete; and on a project whose outputs end with one chunk > 8 KiB (include, command output, long last line, temp target): every multiple of 512 and +-1 around every multiple of 4096, trailing newline on/off, build and --needed."),
+   text="Project a->b->c plus unrelated d: 16 fault kinds (directive errors, non-zero exit and death by signal of a command, unreadable/invalid/non-UTF-8 includes and sources, occupied or unwritable output and temp paths, in-process write limits, verify mismatches) x 5 positions of the faulty file (root, middle, leaf, sibling, sibling with an empty output) x {build, needed, verify, clean where it applies} x pool sizes (unsaturated, 1, 2) x input selections, each explored under all completion orders: the run must return Err in every schedule (never Ok, hang or panic); the fault-free baseline must return Ok with correct outputs in every schedule. Fault sequences: a fault in a->b plus a directory that vanishes while it waits to be scanned (-r), all completion orders. RLIMIT_FSIZE = n for every n from 0 to the largest generated file + 1 on the production binary: exit 0 iff nothing hit the limit, and then all outputs are complete; and on a project whose outputs end with one chunk > 8 KiB (include, command output, long last line, temp target): every multiple of 512 and +-1 around every multiple of 4096, trailing newline on/off, build and --needed."),
  "C11": dict(engine="E-tree", technique="exhaustive enumeration of directory trees x input lists x options, each executed on the real Txtpp::run (processed sources observed through the hook trace) and compared with a reference set-of-sources function",
    ref="4.7, 5/C11", note="Trusted: the reference function expected_set (harness/src/etree.rs), written from the property statement; canonical schedule.",
    text="8 (quick) / 512 (thorough) trees over 3 directory levels x subsets of the three source-name shapes, with look-alike names in every directory, dotted-stem names and an include variant; input lists of length <=1/2 over 21 spellings (incl. sibling directories in a string-prefix relation) (directories, either name, ./ and ../, absolute, missing, look-alikes) x recursive x build/needed/verify/clean x absolute/relative base: the processed set (hook trace), the created / removed / verified outputs and their names must be exactly what the statement prescribes; a target without source must fail."),
